@@ -67,4 +67,15 @@ theorem decom_total (file : Bytes) : (decom file).2 ≠ some .fuel := by
     rw [sync_packed]
     exact framesLoop_no_fuel udps none (Or.inl rfl)
 
+/-! ### review additions (rev1-C08): joint witnesses -/
+
+-- `BMH_total` / `KMP_total` (hypothesis: non-empty pattern), overlapping occurrences
+example : ([1, 2, 1] : Bytes) ≠ [] ∧ bmh [1, 2, 1, 2, 1, 3] [1, 2, 1] = .ok [0, 2] ∧
+    kmpSearch [1, 2, 1, 2, 1, 3] [1, 2, 1] = .ok [0, 2] := ⟨by decide, by rfl, by rfl⟩
+/-- the excluded input: Horspool with an EMPTY pattern on a non-empty text exhausts the fuel (the real code never
+    returns); KMP raises IndexError -/
+example : bmh [1, 2, 3] [] = .error .fuel ∧ kmpSearch [1, 2, 3] [] = .error .index := ⟨by rfl, by rfl⟩
+-- `pcapRecords_total` (inner hypothesis `pcapRecords file = .ok recs`): a global header and two records
+example : (pcapRecords (List.replicate 24 0 ++ [0, 0, 0, 0, 0, 0, 0, 0, 2, 0, 0, 0, 2, 0, 0, 0, 7, 8] ++
+    [0, 0, 0, 0, 0, 0, 0, 0, 0, 0, 0, 0, 0, 0, 0, 0])).map List.length = .ok 2 := by rfl
 end Acra.Props.C08
